@@ -29,7 +29,7 @@ def boundary_value(rng, sname, dname):
 def gen(rng, tier):
     bn = [t[0] for t in bn_types()]
     prims = list(PRIMS)
-    reps = 8 if tier == "thorough" else 4
+    reps = 8 if tier == "thorough" else 2
     pairs = []
     # bnum -> prim (TryFrom), bnum -> bnum (BTryFrom), prim -> bnum at least as wide (From/TryFrom)
     for s in bn:
@@ -41,8 +41,6 @@ def gen(rng, tier):
         for d in bn:
             if type_bits(d)[0] >= PRIMS[s]:
                 pairs.append((s, d))
-    if tier != "thorough":
-        pairs = rng.sample(pairs, 900)
     for s, d in pairs:
         for _ in range(reps):
             t, v = boundary_value(rng, s, d)
